@@ -156,13 +156,32 @@ Set Printing Depth 1000000.
 """
 
 
-def _run_coqc(path, timeout):
+def _workers():
+    """parallel coqc processes: all cores, but no more than the available memory carries
+    (a case shard needs up to ~0.9 GB)"""
     try:
-        p = subprocess.run(['coqc', '-Q', COQ, 'SP', path], capture_output=True, text=True,
-                           timeout=timeout)
+        for line in open('/proc/meminfo'):
+            if line.startswith('MemAvailable:'):
+                avail_gb = int(line.split()[1]) / 1e6
+                return max(2, min(NCPU, int(avail_gb / 1.2)))
+    except Exception:
+        pass
+    return NCPU
+
+
+def _run_coqc(path, timeout, tries=3):
+    for attempt in range(tries):
+        try:
+            p = subprocess.run(['coqc', '-Q', COQ, 'SP', path], capture_output=True, text=True,
+                               timeout=timeout)
+        except subprocess.TimeoutExpired:
+            return 124, '', f'coqc timed out after {timeout}s on {path}'
+        if p.returncode < 0 or p.returncode in (137, 143):
+            # killed from outside (OOM killer, a stray pkill): not a verdict, try again
+            time.sleep(2 + 3 * attempt)
+            continue
         return p.returncode, p.stdout, p.stderr
-    except subprocess.TimeoutExpired:
-        return 124, '', f'coqc timed out after {timeout}s on {path}'
+    return p.returncode, p.stdout, p.stderr + ' (killed by a signal %d times)' % tries
 
 
 def _shard_file(workdir, k, imports, fn, case_ty, res_ty, pairs):
@@ -202,7 +221,7 @@ def coq_mismatches(imports, fn, case_ty, res_ty, cases, results, shard=300, time
             pairs = list(zip(cases[lo:lo + shard], results[lo:lo + shard]))
             jobs.append((lo, _shard_file(workdir, k, imports, fn, case_ty, res_ty, pairs)))
         bad = []
-        with cf.ThreadPoolExecutor(max_workers=NCPU) as ex:
+        with cf.ThreadPoolExecutor(max_workers=_workers()) as ex:
             futs = {ex.submit(_run_coqc, path, timeout): (lo, path) for lo, path in jobs}
             for fut in cf.as_completed(futs):
                 lo, path = futs[fut]
@@ -388,7 +407,8 @@ def proof_obligations(pid):
         if b.startswith('Closed under'):
             axs = []
         else:
-            axs = re.findall(r'^([A-Za-z_][\w\.\']*)\s*:', b, re.M)
+            body = b[len('Axioms:'):]
+            axs = re.findall(r'^([A-Za-z_][\w\.\']*)\s*:', body, re.M)
         allax.update(axs)
         good = all(a in ALLOWED_AXIOMS or a.split('.')[-1] in ALLOWED_AXIOMS for a in axs)
         res['theorems'].append({'name': name, 'axioms': axs, 'accepted': good})
